@@ -283,6 +283,9 @@ class H2Protocol:
                     pass
             elif isinstance(event, h2.events.StreamReset):
                 await self._close_stream(event.stream_id)
+                if event.stream_id in self.stream_buffers:
+                    # Nothing more can be sent, release any waiting send
+                    await self.stream_buffers[event.stream_id].close()
                 await self._window_updated(event.stream_id)
             elif isinstance(event, h2.events.WindowUpdated):
                 await self._window_updated(event.stream_id)
